@@ -78,20 +78,7 @@ func (ra *replyAnalysis) isReplyInstr(in ssa.Instruction) bool {
 
 // replyCut: edges on which a non-blocking select chose a hand-off send.
 func (ra *replyAnalysis) replyCut(fn *ssa.Function) map[core.Edge]bool {
-	cut := map[core.Edge]bool{}
-	core.AllInstrs(fn, func(in ssa.Instruction) {
-		sel, ok := in.(*ssa.Select)
-		if !ok {
-			return
-		}
-		for i, st := range sel.States {
-			if st.Dir == types.SendOnly && ra.isHandoffChan(st.Chan) {
-				for e := range selectCaseEdges(sel, i) {
-					cut[e] = true
-				}
-			}
-		}
-	})
+	cut, _ := core.PassEdges(fn, selectSendGuard("hand-off chosen", ra.isHandoffChan))
 	return cut
 }
 
@@ -250,12 +237,11 @@ func (c *Ctx) checkReplyObligation() {
 		r.Check(ok, "C13.3-reply-obligation", fmt.Sprintf("%s: every path replies or hands the {%s} on", fk(h), strings.ToLower(e.Kind)), c.P.Pos(h.Pos()),
 			"all paths discharge the reply obligation", detail)
 		// the wrappers reply on their refusal edge
-		for _, w := range e.Wrappers {
-			if len(w.AnonFuncs) != 1 || doneWrapper[w] {
+		for _, inner := range e.Inners {
+			if doneWrapper[inner] {
 				continue
 			}
-			doneWrapper[w] = true
-			inner := w.AnonFuncs[0]
+			doneWrapper[inner] = true
 			// dynamic handler call counts as reply (the wrapped handler is checked above)
 			isDyn := func(in ssa.Instruction) bool {
 				call, ok := in.(*ssa.Call)
